@@ -152,7 +152,11 @@ theorem C12_stack_exact (api msg : String) (L : List ConvLevel) (T : List Frame)
           ++ L.reverse.map (fun l => l.siteOrigin.loc) ∧
       md.stack.filter (·.converted) = L.reverse.map (fun l => FrameInfo.ofOrigin l.siteOrigin) := by
   refine ⟨_, runChain_eq api msg L T hne hS hK hB, rfl, ?_, ?_⟩
-  · simp only [innerInfos, List.map_append, elide_map_loc, List.map_nil, List.nil_append, List.map_map]
+  · -- the converter's own frames are recognised by FILE IDENTITY (what the translator read from the source on this run):
+    -- only a frame whose path equals the converter module's path is elided
+    have hft : ∀ f : Frame, (!Gen.Errors.converterFrameTest f.file api) = decide (f.file ≠ api) := by
+      intro f; simp [Gen.Errors.converterFrameTest]
+    simp only [innerInfos, List.map_append, elide_map_loc, List.map_nil, List.nil_append, List.map_map, hft]
     rfl
   · rw [List.filter_append]
     have h1 : (innerInfos api (lastBelow L T)).filter (·.converted) = [] := by
@@ -166,6 +170,24 @@ theorem C12_stack_exact (api msg : String) (L : List ConvLevel) (T : List Frame)
       obtain ⟨l, _, rfl⟩ := List.mem_map.mp hfi
       rfl
     rw [h1, h2]; rfl
+
+/-- **User frames are never dropped.** Of a traceback no frame of which is mapped, every frame whose
+file is not the converter module's own path is listed, with its file, function and line — in particular a
+frame of a *user* module that merely shares the converter module's base name (`project/api.py`).
+The proof rests on the frame filter comparing full paths (`Gen.Errors.converterFrameTest`, read from
+`_stack_trace_inside_mapped_code` on every run); a weaker comparison makes it fail to compile. -/
+theorem C12_user_frames_never_dropped (m : SourceMap) (api : String) (B : List Frame)
+    (hB : ∀ f ∈ B, get m ⟨f.file, f.line⟩ = none) :
+    ∀ f ∈ B, f.file ≠ api → f.loc ∈ (stackInsideMappedCode B m api).map FrameInfo.loc := by
+  intro f hf hne
+  rw [stackInside_unmapped m api B hB, elide_map_loc]
+  simp only [List.map_nil, List.nil_append, List.mem_map, List.mem_filter, List.mem_reverse]
+  refine ⟨f, ⟨hf, ?_⟩, rfl⟩
+  simp [Gen.Errors.converterFrameTest, hne]
+
+example : (stackInsideMappedCode [⟨"/u/project/main.py", 30, "lookup", ""⟩, ⟨"/u/project/api.py", 6, "scale", "return v // d"⟩]
+            [] "/repo/malt/impl/api.py").map FrameInfo.loc
+    = [("/u/project/api.py", some "scale", 6), ("/u/project/main.py", some "lookup", 30)] := by decide
 
 /-- The translated stack with its markers, exactly (documented in g3doc/reference/error_handling.md):
 below the innermost converted site every frame outside `api.py` is listed unchanged and carries `**`
